@@ -51,7 +51,7 @@ pub fn spec(id: &str) -> Option<HistorySpec> {
                 thorough_cases: 200_000,
                 thorough_max_ops: 300,
                 termination: false,
-            rule: "generated histories with up to 4 live snapshots and 3 live iterators outliving later writes, flushes, compactions and file deletions; after every flush/compaction/fill/wait and before release, get of every universe key and a full scan at every snapshot must equal the map frozen at snapshot time (get and scan agree), and iterators created earlier are stepped as cursors over their frozen map. Non-trivial = a snapshot read after a key changed AND a flush/compaction ran since the snapshot; distinct by case hash",
+            rule: "generated histories with up to 4 live snapshots and 3 live iterators outliving later writes, flushes, compactions and file deletions; after every flush/compaction/fill/wait and before release, get of every universe key and a full scan at every snapshot must equal the map frozen at snapshot time (get and scan agree), and iterators created earlier are stepped as cursors over their frozen map. A second, concurrent campaign (C06's engine): 1-3 writers apply batches to their key groups (values 16-316 B on 512 B-100 kB memtables, with flushes and compact_range) while 1-2 readers repeatedly take a snapshot, an iterator at it and an implicit iterator, read every key (gets at the snapshot, one pass of the implicit iterator), wait 2 ms, and read everything again (gets, a pass of the snapshot iterator, a second pass of the implicit iterator); generated directives hold a writer at write.before_wal / after_wal / mid_memtable / after_memtable for 15-90 ms meanwhile. The two rounds of gets must be identical, the snapshot iterator must agree with the gets, and the implicit iterator must repeat itself. Non-trivial = a snapshot read after a key changed AND a flush/compaction ran since the snapshot (concurrent part: the latest state changed between the two rounds, or the snapshot was taken while a writer was held inside apply); distinct by case hash",
             })
         }
         "C04" => {
